@@ -197,11 +197,17 @@ func c03Readers() []c03ReaderOps {
 			if err != nil {
 				return nil, nil, err
 			}
-			return func() { rd.Close() }, map[string]func() string{
+			m := map[string]func() string{
 				"Text":     func() string { return c03Str(rd.Text()) },
 				"Markdown": func() string { return c03Str(rd.Markdown()) },
 				"Document": func() string { return c03DocText(rd.Document()) },
-			}, nil
+			}
+			for mode := 0; mode < 4; mode++ {
+				opts := htmldoc.ExtractOptions{NavigationExclusion: htmldoc.NavigationExclusionMode(mode)}
+				m[fmt.Sprintf("TextWithOptions(exclusion %d)", mode)] = func() string { return c03Str(rd.TextWithOptions(opts)) }
+				m[fmt.Sprintf("MarkdownWithOptions(exclusion %d)", mode)] = func() string { return c03Str(rd.MarkdownWithOptions(opts)) }
+			}
+			return func() { rd.Close() }, m, nil
 		}},
 	}
 }
@@ -456,8 +462,8 @@ func init() {
 				}},
 				{kind: 0, inl: []wpInline{{0, "Last paragraph."}}},
 			}
-			htmlDoc := `<html><body><h1>Title</h1><p>Para one</p><ul><li>item<ul><li>inner</li></ul></li></ul>` +
-				`<table><tr><th>h | 1</th><th>h2</th></tr><tr><td>line one<br>line two</td><td colspan="1">c | d</td></tr></table><pre>code | here</pre></body></html>`
+			htmlDoc := `<html><body><nav><ul><li><a href="/a">Home</a></li><li><a href="/b">About</a></li></ul></nav><header><p>site banner</p></header><div class="sidebar"><p>side words</p></div><div class="social-share"><a href="#">share</a> <a href="#">this</a></div><h1>Title</h1><p>Para one</p><ul><li>item<ul><li>inner</li></ul></li></ul>` +
+				`<table><tr><th>h | 1</th><th>h2</th></tr><tr><td>line one<br>line two</td><td colspan="1">c | d</td></tr></table><pre>code | here</pre><footer><p>site footer</p></footer></body></html>`
 			files := map[string]string{
 				"docx": tmpFile(r, ".docx", writeZip(mkDOCXBlocks(wpb, "", ""))),
 				"odt":  tmpFile(r, ".odt", writeZip(mkODTBlocks(wpb))),
